@@ -31,11 +31,14 @@ class PartBatcher(PartHandler):
     '''
 
     def __init__(self, name = None, upstream = None, value = 0, output_batch_size = None):
-        super().__init__(name, upstream, 0, value)
         assert output_batch_size == None or output_batch_size > 0, \
                     f'output_batch_size ({output_batch_size}) cannot be 0 or less.'
         self._output_batch_size = output_batch_size
         self._in_progress_batch = None
+        # Fields are set before the base constructor because it will
+        # initialize the Asset right away if the simulation is already
+        # running.
+        super().__init__(name, upstream, 0, value)
 
     @property
     def output_batch_size(self):
